@@ -5,9 +5,12 @@
 #include <array>
 #include <limits>
 #include <new>
+#include <map>
 #include <string>
+#include <unordered_map>
 #include <vector>
 #include <nop/base/encoding.h>
+#include <nop/base/map.h>
 #include <nop/base/serializer.h>
 #include <nop/base/string.h>
 #include <nop/base/vector.h>
@@ -24,6 +27,10 @@ using VecF = std::vector<float>;   // non-integral elements: ARY, element-wise l
 }  // namespace vt
 
 nop::Status<void> x_rd_vecf(vt::VecF* v, vt::SpecReader* r) { return nop::Encoding<vt::VecF>::ReadPayload(nop::EncodingByte::Array, v, r); }
+using MapT = std::map<std::uint16_t, std::uint8_t>;
+using UMapT = std::unordered_map<std::uint16_t, std::uint8_t>;
+nop::Status<void> x_rd_map(MapT* v, vt::SpecReader* r) { return nop::Encoding<MapT>::ReadPayload(nop::EncodingByte::Map, v, r); }
+nop::Status<void> x_rd_umap(UMapT* v, vt::SpecReader* r) { return nop::Encoding<UMapT>::ReadPayload(nop::EncodingByte::Map, v, r); }
 nop::Status<void> x_rd_f32(float* v, vt::SpecReader* r) { return nop::Encoding<float>::Read(v, r); }
 
 #define VT_VM(T, t)                                                                                                   \
